@@ -646,10 +646,6 @@ func generate(c *ctx, g *gen, thorough bool) {
 		serPool = append(serPool, tv{t, g.value(t, true)})
 	}
 	for i, p := range serPool {
-		if !validUTF8(p.t, p.v) {
-			st.Hit("ser:skipped-invalid-utf8")
-			continue
-		}
 		// every combination on the fixed members and on a slice of the random pool; a rotating
 		// subset elsewhere so that each case file stays small
 		full := i >= len(serPool)-12 || i%8 == 0
@@ -668,6 +664,40 @@ func generate(c *ctx, g *gen, thorough bool) {
 		}
 		if i%10 == 0 {
 			c.addSer(p.t, p.v, serCfg{3, 0, 0, 0}) // an unknown formatting mode is an error
+		}
+	}
+	// string leaves at the edges of UTF-8 validity (referee issue 1): json.Marshal writes U+FFFD for every
+	// byte at which no valid encoding starts.  The model (SerWire.v) predicts the document; for the invalid
+	// ones the denotation / round-trip clauses fail: known finding C03/string-invalid-utf8 (code 15).
+	{
+		str := func(name string) *T { return &T{K: kString, Name: name} }
+		one := func(b string) tv {
+			return tv{&T{K: kTuple, Kids: []*T{str("")}}, vlist([]*V{vbytes([]byte(b))})}
+		}
+		edge := []tv{
+			one("\xff"),                 // the referee's witness
+			one("a\xffb"),               // in the middle of ASCII
+			one("\xc3"),                 // truncated 2-byte sequence
+			one("\xe2\x82"),             // truncated 3-byte sequence
+			one("\xc0\xaf"),             // overlong
+			one("\xed\xa0\x80"),         // surrogate
+			one("\xf4\x90\x80\x80"),     // above U+10FFFF
+			one("\xf0\x9f\x98"),         // truncated 4-byte sequence
+			one("\x80\xbf"),             // stray continuation bytes
+			one("\xef\xbf\xbd"),         // U+FFFD itself: valid
+			one("\xed\x9f\xbf\xee\x80\x80"), // U+D7FF U+E000: valid, next to the surrogate range
+			one("\xf4\x8f\xbf\xbf\xf0\x90\x80\x80\xe0\xa0\x80\xc2\x80\xdf\xbf"), // range ends: valid
+			{&T{K: kTuple, Kids: []*T{str("s"), {K: kUint, M: 8, Name: "n"}, {K: kDynArr, Elem: &T{K: kString}, Name: ""}}},
+				vlist([]*V{vbytes([]byte("ok")), vnum(big.NewInt(7)), vlist([]*V{vbytes([]byte("caf\xc3\xa9")), vbytes([]byte("caf\xe9"))})})},
+		}
+		k := 0
+		for _, p := range edge {
+			for mode := 0; mode < 3; mode++ {
+				for bs := 0; bs < 3; bs++ {
+					k++
+					c.addSer(p.t, p.v, serCfg{mode, k % 4, bs, (k / 3) % 4})
+				}
+			}
 		}
 	}
 	st.Samples = append(st.Samples,
